@@ -3,6 +3,7 @@ import E3fpVerif.Lemmas.Uniq
 import E3fpVerif.Lemmas.Pow2
 import E3fpVerif.Lemmas.FoldLemmas
 import E3fpVerif.Model.Db
+import E3fpVerif.Gen.Decisions
 /-!
 # C07 — folding is index reduction and commutes with every route to a folded result
 
@@ -739,5 +740,44 @@ example : ∃ g, exBit.fold 8 0 .sum = .ok g ∧ g.idx = exBit.idx := by
   exact ⟨g, hg, fold_self_idx exBit g 0 .sum exBit_wf hg⟩
 
 end Examples
+
+/-! ## the refusal guards, as the source states them now
+
+`Gen.foldGuard` / `Gen.dbFoldGuard` are translated test by test from the leading `if …: raise …` statements of
+`Fingerprint.fold` and `FingerprintDatabase.fold` (which test, in which order, which exception class); `pow2 a b` stands for
+the float test `np.log2(a / b).is_integer()`, read as "a is b times a power of two" (`isPow2Multiple`, see `isPow2Multiple_iff`). -/
+
+/-- error enum of the generated guards ↦ the model's -/
+def guardErr : Gen.GuardErr → Err
+  | .bitsValue => .bitsValue | .option => .option | .invalidFp => .invalidFp | .counts => .counts
+  | .value => .value | .type => .type | .key => .key | .index => .index
+
+/-- the model of `Fingerprint.fold` refuses exactly when the source's guards do, with the same exception, and succeeds otherwise -/
+theorem fold_guard (f : Fp) (bits method : Nat) (cm : CountsMethod) :
+    match Gen.foldGuard isPow2Multiple f.bits bits method with
+    | some e => f.fold bits method cm = .error (guardErr e)
+    | none => ∃ g, f.fold bits method cm = .ok g := by
+  unfold Gen.foldGuard Fp.fold
+  by_cases h1 : bits > f.bits
+  · simp [h1, guardErr]
+  · by_cases h2 : isPow2Multiple f.bits bits = true
+    · by_cases h3 : method = 0
+      · simp [h1, h2, h3]
+      · by_cases h4 : method = 1
+        · simp [h1, h2, h4]
+        · simp [h1, h2, h3, h4, guardErr]
+    · simp [h1, h2, guardErr]
+
+/-- the same for `FingerprintDatabase.fold` on a database that holds a matrix -/
+theorem dbFold_guard (db : Db) (a : List (List (Nat × Rat))) (ha : db.array = some a) (bits : Nat) (k : Option Kind) (nm : Option String) :
+    match Gen.dbFoldGuard isPow2Multiple db.bits bits with
+    | some e => db.fold bits k nm = .error (guardErr e)
+    | none => True := by
+  unfold Gen.dbFoldGuard Db.fold
+  by_cases h1 : bits > db.bits
+  · simp [ha, h1, guardErr]
+  · by_cases h2 : isPow2Multiple db.bits bits = true
+    · simp [h1, h2]
+    · simp [ha, h1, h2, guardErr]
 
 end E3fpVerif.Props.C07
